@@ -42,10 +42,14 @@ func newNative(c *checker) *native { return &native{c} }
 const nativeTestTmpl = `package smtp
 
 import (
+	"bytes"
 	"encoding/json"
 	"fmt"
 	"math/rand"
 	"os"
+	"os/exec"
+	"strconv"
+	"sync"
 	"testing"
 	"time"
 )
@@ -115,6 +119,12 @@ func verifRunCase(c verifCase) (o verifOut) {
 	return
 }
 
+// Every case runs in a process of its own (the test binary re-executes
+// itself): package-level state of the code under test - pools, caches,
+// counters - must not leak from one case into the next, exactly as every path
+// of the symbolic execution starts from the initial state. A case whose
+// process dies (a panic in a goroutine nobody recovers, a fatal runtime error)
+// is reported as outcome "panic".
 func TestVerifNative(t *testing.T) {
 	data, err := os.ReadFile(os.Getenv("VERIF_CASES"))
 	if err != nil {
@@ -124,10 +134,52 @@ func TestVerifNative(t *testing.T) {
 	if err := json.Unmarshal(data, &cases); err != nil {
 		t.Fatal(err)
 	}
-	outs := make([]verifOut, 0, len(cases))
-	for _, c := range cases {
-		outs = append(outs, verifRunCase(c))
+	if idx := os.Getenv("VERIF_CASE_INDEX"); idx != "" {
+		i, _ := strconv.Atoi(idx)
+		b, _ := json.Marshal(verifRunCase(cases[i]))
+		if err := os.WriteFile(os.Getenv("VERIF_CASE_OUT"), b, 0o644); err != nil {
+			t.Fatal(err)
+		}
+		return
 	}
+	outs := make([]verifOut, len(cases))
+	sem := make(chan struct{}, 8)
+	var wg sync.WaitGroup
+	var mu sync.Mutex
+	for i := range cases {
+		wg.Add(1)
+		sem <- struct{}{}
+		go func(i int) {
+			defer wg.Done()
+			defer func() { <-sem }()
+			tmp := os.Getenv("VERIF_OUT") + "." + strconv.Itoa(i)
+			cmd := exec.Command(os.Args[0], "-test.run", "^TestVerifNative$", "-test.timeout", "60s")
+			cmd.Env = append(os.Environ(), "VERIF_CASE_INDEX="+strconv.Itoa(i), "VERIF_CASE_OUT="+tmp)
+			if os.Getenv("VERIF_ONE_P") == "1" {
+				// one P: what sync.Pool hands out again is deterministic
+				cmd.Env = append(cmd.Env, "GOMAXPROCS=1")
+			}
+			var buf bytes.Buffer
+			cmd.Stdout, cmd.Stderr = &buf, &buf
+			runErr := cmd.Run()
+			var o verifOut
+			b, err := os.ReadFile(tmp)
+			if err != nil || json.Unmarshal(b, &o) != nil {
+				msg := buf.String()
+				if len(msg) > 600 {
+					msg = msg[:600]
+				}
+				o = verifOut{Harness: cases[i].Harness, Outcome: "panic", PanicMsg: fmt.Sprintf("process died (%%v): %%s", runErr, msg)}
+			}
+			os.Remove(tmp)
+			mu.Lock()
+			// race detector reports and the like go to the parent's output
+			os.Stderr.Write(buf.Bytes())
+			outs[i] = o
+			mu.Unlock()
+		}(i)
+	}
+	wg.Wait()
 	b, _ := json.Marshal(outs)
 	if err := os.WriteFile(os.Getenv("VERIF_OUT"), b, 0o644); err != nil {
 		t.Fatal(err)
@@ -212,6 +264,9 @@ func (n *native) runCasesFull(cases []replayCase, race bool) ([]nativeOut, strin
 	}
 	cmd.Env = append(os.Environ(), "GOFLAGS=-mod=mod", "GOPROXY=off", "GOSUMDB=off", "GOTOOLCHAIN=local", cgo,
 		"VERIF_CASES="+casesFile, "VERIF_OUT="+outFile)
+	if !race {
+		cmd.Env = append(cmd.Env, "VERIF_ONE_P=1")
+	}
 	var buf bytes.Buffer
 	cmd.Stdout, cmd.Stderr = &buf, &buf
 	t0 := time.Now()
